@@ -10,7 +10,7 @@ import (
 // described by a subs box. After the time shift the TTML may have a different length; the sub-sample sizes must
 // still add up to the sample size and to the mdat payload, the image bytes must be the VoD bytes, and the TTML
 // timestamps move by the decode-time shift. Under symbolic execution shiftTTMLTimestamps is replaced by a stub
-// that grows the document by `grow` bytes; natively the real function runs on timestamps without fraction (which
+// that keeps the document's length or grows it by 8 bytes; natively the real function runs on timestamps without fraction (which
 // grow by ".000") when grow > 0 and on timestamps with fraction (same length) when grow == 0.
 
 func init() {
@@ -68,7 +68,9 @@ func vH_C01_stpp_image() {
 	tfdt := vInt("tfdt", 0, 1<<20)
 	nr := vInt("nr", 0, 1<<31)
 	imgLen := vConc(vInt("imgLen", 1, 4))
-	vStppGrow = vConc(vInt("grow", 0, 5))
+	// the document keeps its length (timestamps with fraction) or grows by 8 bytes (two timestamps gain ".000"),
+	// exactly what the native side does, so that engine and native runs agree byte for byte
+	vStppGrow = [2]int{0, 8}[vConc(vInt("growIdx", 0, 1))]
 	seg := vMkStppImgSegment(uint64(tfdt), imgLen, vStppGrow > 0)
 	subs := vStppSubs(seg)
 	vAssert("C01.stppimg.has-subs", subs != nil && len(subs.Entries) == 1 && len(subs.Entries[0].SubSamples) == 2)
